@@ -420,3 +420,154 @@ func FreeMidFrameTimeout(rng *Rng) (string, Cfg) {
 	c.CloseAfter = 0
 	return "free-midframe-timeout", c
 }
+
+// FreeCoalesced: short read time-out (1 s); the peer idles 2/3 of it, writes frame A together
+// with the first half of frame B in ONE segment, idles 2/3 again and sends the rest: every pause
+// is comfortably below the time-out, both frames must be delivered and no read error occur.
+func FreeCoalesced(rng *Rng) (string, Cfg) {
+	c := base(rng, 0)
+	var g idGen
+	c.Senders = [][]PktSpec{g.pkts(rng, rng.Range(0, 3), smallSizes)}
+	c.Closers = []bool{true}
+	c.ReadTimeout = 1
+	c.WaitInput = 2
+	c.Icap = 16
+	c.Input = inputFrames(rng, rng.Range(0, 2), smallSizes)
+	c.Input = append(c.Input, InItem{7, 6000, rng.PickInt(7, 100, 300)}, InItem{8, 6001, rng.PickInt(16, 100, 300)})
+	return "free-coalesced-segments", c
+}
+
+// FreeChunkedInbound: the peer's frames arrive as one byte stream cut at random places.
+func FreeChunkedInbound(rng *Rng) (string, Cfg) {
+	c := base(rng, 0)
+	var g idGen
+	c.Senders = [][]PktSpec{g.pkts(rng, rng.Range(0, 5), smallSizes)}
+	c.Closers = []bool{true}
+	c.Icap = 64
+	c.Input = inputFrames(rng, rng.Range(2, 40), []int{0, 1, 7, 100, 300, 1000, 3000})
+	c.Chunked = 1
+	c.WaitInput = 2
+	return "free-chunked-inbound", c
+}
+
+// FreeTransportBacklog: a large backlog at Close over a transport that is not a *net.TCPConn
+// (a wrapped TCP connection, as a TLS or metering layer would be; a unix domain socket),
+// writer-only endpoint, late reading peer.
+func FreeTransportBacklog(rng *Rng) (string, Cfg) {
+	c := base(rng, 0)
+	c.Codec = 1
+	var g idGen
+	k := rng.Range(150, 400)
+	c.Ocap = 1000
+	c.Senders = [][]PktSpec{g.pkts(rng, k, []int{8000, 16000, 32000})}
+	c.Closers = []bool{true}
+	c.HasReader = false
+	c.Input = nil
+	c.PeerRead = rng.PickInt(1, 2, 2)
+	name := "free-wrapped-backlog"
+	if rng.Bool() {
+		c.Transport = 1
+		name = "free-unix-backlog"
+	} else {
+		c.FailAfter = -2
+	}
+	return name, c
+}
+
+// FreeServerGC: the connection is accepted by a qnet.TcpServer; a burst that fits into the
+// kernel buffers is sent to a peer that does not read yet; after Close returned the harness
+// drops every reference to the endpoint and forces two GC cycles; only then the peer reads: it
+// must still get everything and then end-of-stream.
+func FreeServerGC(rng *Rng) (string, Cfg) {
+	c := base(rng, 0)
+	c.Codec = 1 + rng.Intn(2)
+	var g idGen
+	k := rng.Range(20, 64)
+	c.Ocap = 128
+	c.Ecap = 16
+	c.Senders = [][]PktSpec{g.pkts(rng, k, []int{4000, 8000, 16000})}
+	c.Closers = []bool{true}
+	c.HasReader = rng.Bool()
+	c.Input = nil
+	c.PeerRead = 4
+	c.GCAfter = 1
+	c.ViaServer = rng.PickInt(1, 1, 0)
+	c.LateSend = 0
+	name := "free-gc-late-peer"
+	if c.ViaServer == 1 {
+		name = "free-server-gc-late-peer"
+	}
+	return name, c
+}
+
+// FreeEnv: a pass over the ENVIRONMENT dimensions rather than over the code: transport kind
+// (loopback TCP / unix socket / wrapped conn), who accepted the connection (harness / a
+// TcpServer), GC of the dropped endpoint before the peer reads, a short read deadline with
+// pauses below it and coalesced segments, the peer's input cut at random places, the peer
+// half-closing after its input — combined at random (within what each combination allows).
+func FreeEnv(rng *Rng) (string, Cfg) {
+	c := base(rng, 0)
+	var g idGen
+	transport := rng.PickInt(0, 0, 1, 2) // tcp, tcp, unix, wrapped
+	name := "free-env-tcp"
+	switch transport {
+	case 1:
+		c.Transport = 1
+		name = "free-env-unix"
+	case 2:
+		c.FailAfter = -2
+		name = "free-env-wrapped"
+	}
+	if transport == 0 && rng.Bool() {
+		c.ViaServer = 1
+		c.Ecap = 16
+		name += "-server"
+	}
+	k := rng.Range(10, 120)
+	c.Ocap = rng.PickInt(k, 128, 1000)
+	c.Senders = [][]PktSpec{g.pkts(rng, k, []int{100, 1000, 4000})}
+	c.Closers = []bool{true}
+	if rng.Chance(1, 4) { // the endpoint is dropped and collected before the peer reads
+		c.GCAfter = 1
+		c.PeerRead = 4
+		c.Input = nil
+		c.LateSend = 0
+		c.HasReader = transport == 0 && rng.Bool()
+		return name + "-gc", c
+	}
+	c.PeerRead = rng.Intn(3)
+	halfClose := false
+	switch rng.Intn(4) {
+	case 0:
+		c.Input = nil
+	case 1:
+		c.Input = inputFrames(rng, rng.Range(1, 10), smallSizes)
+		halfClose = rng.Bool()
+	case 2:
+		c.Input = inputFrames(rng, rng.Range(2, 20), []int{0, 7, 100, 1000, 3000})
+		c.Chunked = 1
+	case 3:
+		c.ReadTimeout = 1
+		c.Input = append(inputFrames(rng, rng.Range(0, 2), smallSizes), InItem{7, 6000, 100}, InItem{8, 6001, 100})
+	}
+	c.Icap = 64
+	if halfClose {
+		c.Input = append(c.Input, InItem{2, 7000, 0}) // the peer ends its side; it keeps reading
+		c.WaitInput = 1
+		name += "-halfclose"
+	} else if len(c.Input) > 0 {
+		c.WaitInput = 2
+	}
+	if transport != 0 && !halfClose {
+		// no half-close on this transport: with a reader, Close would wait for the peer to hang up
+		c.HasReader = false
+		if c.WaitInput == 2 {
+			c.WaitInput = 1
+		}
+		if len(c.Input) > 0 {
+			// Close() can only close such a connection as a whole, and the peer's data was never read
+			name = "free-env-nontcp-unread"
+		}
+	}
+	return name, c
+}
